@@ -59,7 +59,8 @@ def load_sidecar(pid):
 def collect_items(mod, tier='thorough'):
     items = []
     for i, c in enumerate(getattr(mod, 'CONTRACTS', [])):
-        if getattr(c, 'tier', 'quick') == 'thorough' and tier != 'thorough':
+        ctier = getattr(c, 'tier', 'quick')
+        if (ctier == 'thorough' and tier not in ('thorough', 'deep')) or (ctier == 'deep' and tier != 'deep'):
             continue
         items.append(('contract', i, c.name))
     for i, lem in enumerate(getattr(mod, 'LEMMAS', [])):
@@ -72,6 +73,9 @@ def worker(job):
     t0 = time.time()
     try:
         sys.setrecursionlimit(20000)
+        from . import vc as _vc
+        if os.environ.get('VERIF_TIER_EFFECTIVE') == 'deep':
+            _vc.TIME_SCALE = 4          # wall-clock caps of the solver portfolio: 16 of these run at once
         from .vc import Verifier
         mod = load_sidecar(pid)
         vr = Verifier(repo, HERE)
@@ -242,6 +246,7 @@ def main():
     os.makedirs(os.path.join(HERE, 'replays'), exist_ok=True)
     mod = load_sidecar(pid)
     items = collect_items(mod, args.tier)
+    os.environ['VERIF_TIER_EFFECTIVE'] = args.tier
     if args.only:
         items = [it for it in items if args.only in it[2]]
     from .vc import expand_scenarios
@@ -421,10 +426,11 @@ def main():
                     faults.append(f'vacuous: clause {nm} was never reached')
 
     for c in getattr(mod, 'CONTRACTS', []):
-        if getattr(c, 'tier', 'quick') == 'thorough' and args.tier != 'thorough':
-            functions.append({'name': c.name, 'target': c.target, 'class': 'THOROUGH-TIER-ONLY',
-                              'reason': 'discharged by the thorough command only (minutes of solver time per scenario); '
-                                        'not counted in this run. ' + (c.notes or '')})
+        ctier = getattr(c, 'tier', 'quick')
+        if (ctier == 'thorough' and args.tier not in ('thorough', 'deep')) or (ctier == 'deep' and args.tier != 'deep'):
+            functions.append({'name': c.name, 'target': c.target, 'class': ctier.upper() + '-TIER-ONLY',
+                              'reason': f'discharged by `--tier {ctier}` only (minutes of solver time per scenario); '
+                                        'NOT counted in this run. ' + (c.notes or '')})
     for c in getattr(mod, 'ASSUMED', []):
         functions.append({'name': c.name, 'target': c.target, 'class': 'ASSUMED-CONTRACT (' + c.klass + ')',
                           'reason': c.notes or 'contract assumed at call sites; not discharged deductively'})
@@ -453,7 +459,7 @@ def main():
                     faults.append(f'obligation {k} of the baseline was not generated')
 
     # bounded stand-in
-    bounded = run_bounded(pid, args.tier, seed, args.repo) if not args.only else None
+    bounded = run_bounded(pid, 'thorough' if args.tier == 'deep' else args.tier, seed, args.repo) if not args.only else None
     bounded_viol = []
     if bounded is not None:
         if 'error' in bounded:
